@@ -319,6 +319,7 @@ func checkC07(c *Ctx) {
 		ls, whyL := c.wireLeaves(rd, true)
 		ok, det := false, "no variable-length data entry"
 		undecidedTail := whyL != ""
+		tailCarrier := ""
 		for _, l := range ls {
 			if l.width >= 0 {
 				continue
@@ -351,11 +352,18 @@ func checkC07(c *Ctx) {
 						ok, det = false, "the size passed to the entry decoder at "+c.IPos(call)+" is not the list's SignatureSize field"
 					}
 				default:
+					if o := dv.fieldOrigin(call.Call.Args[1], di.fr, 0); strings.HasPrefix(o, M+"/") && !strings.Contains(o, ".SignatureList.") {
+						// a field of a reader/decoder state object: what was stored there is not traced
+						tailCarrier = "the size passed to the entry decoder at " + c.IPos(call) + " is the field " + shortID(o) + " of a state object"
+						continue
+					}
 					ok, det = false, "the size passed to the entry decoder at "+c.IPos(call)+" is not the list's SignatureSize field"
 				}
 			}
 		}
-		if !ok && undecidedTail {
+		if tailCarrier != "" && (ok || !undecidedTail) && det != "" || tailCarrier != "" && ok {
+			c.R.Infof("G1.tail", name(rd), "Data.len", c.Pos(rd.Pos()), "not decided for this shape: "+tailCarrier)
+		} else if !ok && undecidedTail {
 			c.R.Infof("G1.tail", name(rd), "Data.len", c.Pos(rd.Pos()), "not decided for this shape: the length of the signature data cannot be evaluated")
 		} else {
 			c.R.Check(ok, "G1.tail", name(rd), "Data.len", c.Pos(rd.Pos()), "signature data is SignatureSize-16 bytes", det)
